@@ -18,6 +18,7 @@ import (
 
 var repo = flag.String("repo", "/repo", "repository root")
 var out = flag.String("o", "", "output file (default stdout)")
+var engineOut = flag.String("engine", "", "output file of the translated enum helpers (MassVerif/Generated/Engine.lean)")
 
 type pkgInfo struct {
 	fset  *token.FileSet
@@ -272,6 +273,9 @@ func findFunc(dir, recv, name string) *ast.FuncDecl {
 
 func main() {
 	flag.Parse()
+	if *engineOut != "" {
+		writeEngine(*engineOut)
+	}
 	emit("-- GENERATED by /verif/go/extract from the working tree of /repo. DO NOT EDIT.")
 	emit("namespace MassVerif.Facts")
 	factsBucket()
